@@ -55,6 +55,23 @@ def check_case(res, c, tier):
     res.count("roundtrips_compared")
     for path, a, b in d[:4]:
         res.violation(f"C01:diff:{snapshot.field_key(path)}", f"{path}: before save {a}, after load {b}", desc)
+    # second round on the same object: it has been saved once; edit it in place through routes that bypass any change
+    # notification (names, options, payloads, pattern cells, embedded projects) and save again
+    if c.index % 3 == 0:
+        from . import c06
+        import random as _random
+        applied = c06.mutate_live(c.obj, _random.Random(c.seed * 7919 + c.index), 10, prefer=("/payload/project/", "/patterns", "/options/"),
+                                  exclude=lambda pth: "/payload/project/" in pth and "/controllers/" in pth)
+        if applied:
+            res.count("resave_after_edit")
+            S_new = build.norm(snapshot.snap_project(c.obj), "before")
+            try:
+                p3 = workload.load(c.obj.read())
+            except Exception as e:
+                res.violation(f"C01:resave-raises:{workload.exc_key(e)}", f"saving again after in-place edits {applied[:3]} failed: {e!r}", desc)
+                return
+            for path, a, b in snapshot.diff(S_new, build.norm(snapshot.snap_project(p3), "after"))[:3]:
+                res.violation(f"C01:resave-stale:{snapshot.field_key(path)}", f"after in-place edits {applied[:4]} and a second save, {path}: object {a}, file {b}", desc)
     # names that hit the truncation rule
     for m in S1["modules"]:
         if m is not None and build.utf8_prefix(m["name"]) != m["name"]:
